@@ -343,6 +343,23 @@ func runC07(r *mon.Run) {
 			t.Fail("fit-mismatch", map[string]interface{}{"op": op, "ctx": c.String(), "coefficient_digits": dec.NumDigits(cf), "x": x.String(), "got": o.Res.String(), "why": why})
 		}
 	})
+	// Log10 of exact powers of ten, whose integer result has few digits but may
+	// lie far above a small MaxExponent (Log10(1E+1000) = 1000 with MaxExponent 2)
+	r.Parallel("log10-powers", r.N(4000, 200000), func(t *mon.T) {
+		rr := t.Rng
+		c := dec.Ctx{P: int64(1 + rr.Intn(20)), Emin: -rr.Range(0, 4), Emax: rr.Range(0, 4), Mode: gen.Mode(rr)}
+		k := rr.Range(1, 99000)
+		if rr.Bool() {
+			k = rr.Range(1, 2000)
+		}
+		if rr.Bool() {
+			k = -k
+		}
+		j := int64(rr.Intn(6))
+		x := dec.D{Form: dec.Finite, C: new(big.Int).Set(dec.Pow10(j)), E: k - j}
+		transCase(t, "fit", "log10", c, x, dec.D{})
+		t.Count("log10-powers")
+	})
 	transcendentalFit(r)
 	if !r.Quick() {
 		gridRun(r, "fit")
